@@ -293,32 +293,3 @@ fn c11_one_shot_ci_invalid_observation_bounded() {
     assert!(matches!(Geometric::<f32>::ci(c, &one), Err(CIError::TooFewSamples(1))));
     assert!(matches!(Harmonic::<f32>::ci(c, &none), Err(CIError::TooFewSamples(0))));
 }
-
-// ---- frame conditions (C01 / C05 / C10: an interval producer is a function of the accumulated state and the confidence; it
-// writes to nothing but its own locals -- no statics, thread-locals or memo tables; see kani/contracts.json)
-#[kani::proof_for_contract(Arithmetic::<f64>::ci_mean)]
-#[kani::stub(crate::stats::t_value, det_t_value)]
-#[kani::stub(crate::stats::z_value, det_z_value)]
-fn c10t_frame_arithmetic_ci_mean_writes_no_hidden_state() {
-    let a = any_arith_f64();
-    let r = a.ci_mean(any_confidence());
-    kani::cover!(r.is_ok());
-    kani::cover!(r.is_err());
-}
-#[kani::proof_for_contract(Harmonic::<f64>::ci_mean)]
-#[kani::stub(crate::stats::t_value, det_t_value)]
-#[kani::stub(crate::stats::z_value, det_z_value)]
-fn c10t_frame_harmonic_ci_mean_writes_no_hidden_state() {
-    let h = Harmonic { recip_space: any_arith_f64() };
-    let r = h.ci_mean(any_confidence());
-    kani::cover!(r.is_ok());
-    kani::cover!(r.is_err());
-}
-#[kani::proof_for_contract(Geometric::<f64>::ci_mean)]
-#[kani::stub(crate::stats::t_value, det_t_value)]
-#[kani::stub(crate::stats::z_value, det_z_value)]
-fn c10t_frame_geometric_ci_mean_writes_no_hidden_state() {
-    let g = Geometric { log_space: any_arith_f64() };
-    let r = g.ci_mean(any_confidence());
-    kani::cover!(r.is_err());
-}
